@@ -779,6 +779,7 @@ pub fn run_l2(scn: &C10Scenario, stats: &mut RunStats) -> Vec<Violation> {
                     );
                 }
                 let _ = exec::take_captured_errors();
+                crate::include_rule::reset_loop_guard();
                 let result = exec::catch(|| watcher.verif_batch(events));
                 last_batch_error = exec::take_captured_errors()
                     .into_iter()
@@ -857,6 +858,7 @@ pub fn run_l2(scn: &C10Scenario, stats: &mut RunStats) -> Vec<Violation> {
                     fs.set_budget(budget);
                     let log_start = fs.log_len();
                     let _ = exec::take_captured_errors();
+                    crate::include_rule::reset_loop_guard();
                     let result = exec::catch(|| watcher.verif_first_run());
                     last_batch_error = exec::take_captured_errors()
                         .into_iter()
